@@ -552,6 +552,7 @@ def plan(tier, seed):
         me, tier, seed, nchunks=64,
         rule="all programs up to n statements over {add, multiply, negative, sum, reshape (all with constant=None/True/False), [::-1], +=, [0]=} "
         "with operands ranging over both leaves and all earlier results x all 36 leaf-kind assignments; statements NumPy itself rejects are skipped; "
+        "plus n-ary cells x all constness assignments, operator cells over operand kinds incl. 0-d tensors holding shortcut values, and method/constructor cells x constant=; "
         "states = distinct executed (kinds, program) cells; non-trivial = some leaf is not a float variable or some statement passes constant=",
         bounds={"max_statements": BOUNDS[tier], "leaf_kinds": LEAF_KINDS},
         assumptions=["the .constant rule is the one quoted in the property; the differential run replaces each constant tensor by a copy of its data as soon as it is created"],
